@@ -54,11 +54,23 @@ pub fn convert_node(ast: &ASTTy, imp: &mut Imports, state: &State, ctx: &Context
         NodeTy::VariableDef { .. } | NodeTy::FunDef { .. } | NodeTy::FunArg { .. } => {
             convert_def(ast, imp, state, ctx)?
         }
-        NodeTy::Reassign { left, right, op } => Core::Assign {
-            left: Box::from(convert_node(left, imp, state, ctx)?),
-            right: Box::from(convert_node(right, imp, state, ctx)?),
-            op: CoreOp::try_from((ast, op))?,
-        },
+        NodeTy::Reassign { left, right, op } => {
+            let op = CoreOp::try_from((ast, op))?;
+            let left = convert_node(left, imp, state, ctx)?;
+            match convert_node(right, imp, state, ctx)? {
+                // An if or match that is not a Python expression assigns in each of its
+                // branches, as for a definition.
+                Core::IfElse { .. } | Core::Match { .. } if op == CoreOp::Assign => {
+                    let state = state.must_assign_to(Some(&left), None);
+                    return convert_node(right, imp, &state, ctx);
+                }
+                right => Core::Assign {
+                    left: Box::from(left),
+                    right: Box::from(right),
+                    op,
+                },
+            }
+        }
 
         NodeTy::Block { statements } => Core::Block {
             statements: convert_vec(statements, imp, state, ctx)?,
